@@ -15,7 +15,7 @@
 
 use std::net::{IpAddr, Ipv4Addr, SocketAddr};
 use std::sync::Arc;
-use std::sync::atomic::{AtomicBool, AtomicUsize, Ordering};
+use std::sync::atomic::{AtomicUsize, Ordering};
 use std::time::Duration;
 
 use srtla_core::priority::CriticalWindow;
@@ -56,8 +56,13 @@ pub struct Scenario {
     pub nak_every: u32,
     pub nak_from: usize,
     pub nak_to: usize,
-    /// receiver ignores link 127.0.0.`bh.0` completely during ticks [bh.1, bh.2): time-out, reconnect, counters restart
-    pub bh: Option<(u8, usize, usize)>,
+    /// receiver ignores link 127.0.0.`.0` completely during ticks [.1, .2): time-out, reconnect, counters restart
+    pub bh: Vec<(u8, usize, usize)>,
+    /// receiver answers every `sack`-th data packet with an SRT ACK on the arrival link as well (0 = never):
+    /// return traffic that must reach the SRT client unchanged
+    pub sack: u32,
+    /// the receiver restarts at this tick (0 = never): group and every registration forgotten
+    pub forget: usize,
     /// ticks to observe
     pub ticks: usize,
 }
@@ -74,7 +79,7 @@ impl Scenario {
             })
             .collect();
         format!(
-            "ips={} reloads={} admit2={} pps={} rtt={} nak={}:{}:{} bh={} ticks={}",
+            "ips={} reloads={} admit2={} pps={} rtt={} nak={}:{}:{} bh={} sack={} forget={} ticks={}",
             l(&self.ips),
             if rl.is_empty() { "-".into() } else { rl.join(",") },
             self.admit2,
@@ -83,15 +88,14 @@ impl Scenario {
             self.nak_every,
             self.nak_from,
             self.nak_to,
-            match self.bh {
-                Some((a, b, c)) => format!("{a}:{b}:{c}"),
-                None => "-".into(),
-            },
+            if self.bh.is_empty() { "-".to_string() } else { self.bh.iter().map(|(a, b, c)| format!("{a}:{b}:{c}")).collect::<Vec<_>>().join(",") },
+            self.sack,
+            self.forget,
             self.ticks
         )
     }
 
-    /// Strict: exactly the eight `key=value` tokens of `render`, in that order; numbers are 1..9 decimal digits.
+    /// Strict: exactly the ten `key=value` tokens of `render`, in that order; numbers are 1..9 decimal digits.
     /// (`Srtla.Drv.looptraceWellFormed` accepts exactly the same lines.)
     pub fn parse(toks: &[&str]) -> Option<Scenario> {
         fn num(s: &str) -> Option<u64> {
@@ -111,7 +115,7 @@ impl Scenario {
             }
             Some((num(p[0])?, num(p[1])?, num(p[2])?))
         }
-        if toks.len() != 8 {
+        if toks.len() != 10 {
             return None;
         }
         let val = |i: usize, key: &str| -> Option<&str> { toks[i].strip_prefix(key).and_then(|r| r.strip_prefix('=')) };
@@ -136,20 +140,23 @@ impl Scenario {
         let rtt_ms = num(val(4, "rtt")?)?;
         let (ne, nf, nt) = triple(val(5, "nak")?)?;
         let bhv = val(6, "bh")?;
-        let bh = if bhv == "-" {
-            None
-        } else {
-            let (a, b, c) = triple(bhv)?;
-            if !(1..=9).contains(&a) {
-                return None;
+        let mut bh = Vec::new();
+        if bhv != "-" {
+            for part in bhv.split(',') {
+                let (a, b, c) = triple(part)?;
+                if !(1..=9).contains(&a) {
+                    return None;
+                }
+                bh.push((a as u8, b as usize, c as usize));
             }
-            Some((a as u8, b as usize, c as usize))
-        };
-        let ticks = num(val(7, "ticks")?)? as usize;
-        if ticks == 0 || ticks > 200 || pps == 0 || pps > 2000 || rtt_ms > 2000 || reloads.len() > 4 {
+        }
+        let sack = num(val(7, "sack")?)? as u32;
+        let forget = num(val(8, "forget")?)? as usize;
+        let ticks = num(val(9, "ticks")?)? as usize;
+        if ticks == 0 || ticks > 200 || pps == 0 || pps > 2000 || rtt_ms > 2000 || reloads.len() > 4 || bh.len() > 4 {
             return None;
         }
-        Some(Scenario { ips, reloads, admit2, pps, rtt_ms, nak_every: ne as u32, nak_from: nf as usize, nak_to: nt as usize, bh, ticks })
+        Some(Scenario { ips, reloads, admit2, pps, rtt_ms, nak_every: ne as u32, nak_from: nf as usize, nak_to: nt as usize, bh, sack, forget, ticks })
     }
 }
 
@@ -171,11 +178,15 @@ pub struct LinkTick {
     pub cc_loss_ewma: f64,
     pub cc_loss_degraded: bool,
     pub rtt_ms: u64,
+    pub window: i64,
+    pub in_flight: i64,
 }
 
 #[derive(Clone, Debug)]
 pub struct Tick {
     pub n: usize,
+    /// virtual time (ms) at which the scenario saw this tick's `stats` event
+    pub at: u64,
     pub links: Vec<LinkTick>,
     /// number of reloads sent before this tick was published
     pub reloads_sent: usize,
@@ -187,14 +198,91 @@ impl LinkTick {
     }
 }
 
+/// What arrived at the receiver's socket (logged whether or not the receiver answers it).
+#[derive(Clone, Debug, PartialEq)]
+pub enum RxKind {
+    /// SRT data packet: sequence number, byte-identical to what the source sent?
+    Data { seq: u32, intact: bool },
+    Keepalive { ts: Option<u64>, len: usize, ext: bool },
+    Reg1,
+    Reg2,
+    Other(u16),
+}
+
+#[derive(Clone, Debug)]
+pub struct RxEv {
+    /// position in the receiver's single log of arrivals and sends
+    pub ord: u64,
+    pub at: u64,
+    /// last octet of the source address (the uplink)
+    pub link: u8,
+    pub port: u16,
+    pub kind: RxKind,
+    /// the receiver processed it (the link was admitted / not black-holed / registered)
+    pub answered: bool,
+}
+
+/// What the receiver sent back on a link.
+#[derive(Clone, Debug, PartialEq)]
+pub enum TxKind {
+    SrtlaAck,
+    /// SRT NAK for this sequence number: return traffic, must reach the SRT client unchanged
+    Nak(u32),
+    /// SRT ACK with this marker: must reach the SRT client unchanged
+    SrtAck(u32),
+    Echo,
+    Reg2,
+    Reg3,
+    RegNgp,
+}
+
+#[derive(Clone, Debug)]
+pub struct TxEv {
+    pub ord: u64,
+    pub at: u64,
+    pub link: u8,
+    pub port: u16,
+    pub kind: TxKind,
+}
+
+#[derive(Clone, Debug, Default)]
+pub struct Trace {
+    pub ticks: Vec<Tick>,
+    pub rx: Vec<RxEv>,
+    pub tx: Vec<TxEv>,
+    /// (virtual ms, sequence number) of every datagram the SRT source sent
+    pub src: Vec<(u64, u32)>,
+    /// (virtual ms, bytes) of every datagram the SRT client socket received back
+    pub client: Vec<(u64, Vec<u8>)>,
+}
+
+#[derive(Default)]
+struct Logs {
+    ord: u64,
+    rx: Vec<RxEv>,
+    tx: Vec<TxEv>,
+    src: Vec<(u64, u32)>,
+    client: Vec<(u64, Vec<u8>)>,
+}
+
 struct RecvCtl {
     tick: AtomicUsize,
     admit2: usize,
     nak_every: u32,
     nak_from: usize,
     nak_to: usize,
-    bh: Option<(u8, usize, usize)>,
+    bh: Vec<(u8, usize, usize)>,
     rtt_ms: u64,
+    sack: u32,
+    forget: usize,
+    t0: tokio::time::Instant,
+    logs: std::sync::Mutex<Logs>,
+}
+
+impl RecvCtl {
+    fn now(&self) -> u64 {
+        CLOCK_BASE_MS + self.t0.elapsed().as_millis() as u64
+    }
 }
 
 fn octet(ip: IpAddr) -> u8 {
@@ -204,10 +292,43 @@ fn octet(ip: IpAddr) -> u8 {
     }
 }
 
+/// The 1316-byte data packet with sequence number `seq` (16-byte SRT data header, patterned payload).
+pub fn source_packet(seq: u32) -> Vec<u8> {
+    let mut pkt = vec![0u8; 1316];
+    pkt[0..4].copy_from_slice(&seq.to_be_bytes());
+    for (i, b) in pkt.iter_mut().enumerate().skip(16) {
+        *b = (seq as usize * 31 + i * 7) as u8;
+    }
+    pkt
+}
+
+/// The 20-byte SRT NAK the receiver sends for one lost sequence number.
+pub fn nak_packet(seq: u32) -> Vec<u8> {
+    let mut nak = vec![0x80, 0x03, 0, 0, 0, 0, 0, 0, 0, 0, 0, 0, 0, 0, 0, 0];
+    nak.extend_from_slice(&seq.to_be_bytes());
+    nak
+}
+
+/// The 44-byte SRT ACK the receiver sends back with marker `m` (cumulative number `ack` at bytes 16..20).
+pub fn srt_ack_packet(m: u32, ack: u32) -> Vec<u8> {
+    let mut p = vec![0u8; 44];
+    p[0] = 0x80;
+    p[1] = 0x02;
+    p[4..8].copy_from_slice(&m.to_be_bytes());
+    p[16..20].copy_from_slice(&ack.to_be_bytes());
+    for (i, b) in p.iter_mut().enumerate().skip(20) {
+        *b = (m as usize * 13 + i * 5) as u8;
+    }
+    p
+}
+
 async fn fake_receiver(sock: Arc<UdpSocket>, ctl: Arc<RecvCtl>) {
     let mut buf = vec![0u8; 2048];
     let mut group: Option<[u8; SRTLA_ID_LEN]> = None;
+    let mut registered: std::collections::HashSet<SocketAddr> = Default::default();
+    let mut forgot = false;
     let mut data_seen: u32 = 0;
+    let mut marker: u32 = 0;
     loop {
         let Ok((n, src)) = sock.recv_from(&mut buf).await else { continue };
         if n < 2 {
@@ -216,46 +337,86 @@ async fn fake_receiver(sock: Arc<UdpSocket>, ctl: Arc<RecvCtl>) {
         let pkt = &buf[..n];
         let o = octet(src.ip());
         let tick = ctl.tick.load(Ordering::Relaxed);
+        let now = ctl.now();
+        if ctl.forget != 0 && tick >= ctl.forget && !forgot {
+            forgot = true;
+            group = None;
+            registered.clear();
+        }
         let mut admitted = o != 2 || tick >= ctl.admit2;
-        if let Some((l, from, to)) = ctl.bh {
-            if o == l && tick >= from && tick < to {
+        for (l, from, to) in &ctl.bh {
+            if o == *l && tick >= *from && tick < *to {
                 admitted = false;
             }
         }
-        if !admitted {
+        let ty = u16::from_be_bytes([pkt[0], pkt[1]]);
+        let is_data = (pkt[0] & 0x80) == 0;
+        let kind = if is_data {
+            let seq = if n >= 4 { u32::from_be_bytes([pkt[0], pkt[1], pkt[2], pkt[3]]) } else { 0 };
+            RxKind::Data { seq, intact: pkt == source_packet(seq).as_slice() }
+        } else if ty == SRTLA_TYPE_KEEPALIVE {
+            RxKind::Keepalive { ts: extract_keepalive_timestamp(pkt), len: n, ext: extract_keepalive_conn_info(pkt).is_some() }
+        } else if ty == SRTLA_TYPE_REG1 {
+            RxKind::Reg1
+        } else if ty == SRTLA_TYPE_REG2 {
+            RxKind::Reg2
+        } else {
+            RxKind::Other(ty)
+        };
+        let is_reg = matches!(kind, RxKind::Reg1 | RxKind::Reg2);
+        let answered = admitted && (is_reg || registered.contains(&src));
+        {
+            let mut l = ctl.logs.lock().unwrap();
+            l.ord += 1;
+            let ord = l.ord;
+            l.rx.push(RxEv { ord, at: now, link: o, port: src.port(), kind: kind.clone(), answered });
+        }
+        if !answered {
             continue;
         }
-        if (pkt[0] & 0x80) == 0 {
-            if n >= 4 {
-                let seq = u32::from_be_bytes([pkt[0], pkt[1], pkt[2], pkt[3]]);
+        let logtx = |k: TxKind| {
+            let mut l = ctl.logs.lock().unwrap();
+            l.ord += 1;
+            let ord = l.ord;
+            l.tx.push(TxEv { ord, at: now, link: o, port: src.port(), kind: k });
+        };
+        match kind {
+            RxKind::Data { seq, .. } => {
                 data_seen = data_seen.wrapping_add(1);
                 if o == 1 && ctl.nak_every != 0 && tick >= ctl.nak_from && tick < ctl.nak_to && data_seen % ctl.nak_every == 0 {
-                    let mut nak = vec![0x80, 0x03, 0, 0, 0, 0, 0, 0, 0, 0, 0, 0, 0, 0, 0, 0];
-                    nak.extend_from_slice(&seq.to_be_bytes());
-                    let _ = sock.send_to(&nak, src).await;
+                    logtx(TxKind::Nak(seq));
+                    let _ = sock.send_to(&nak_packet(seq), src).await;
                 } else {
+                    logtx(TxKind::SrtlaAck);
                     let _ = sock.send_to(&create_ack_packet(&[seq]), src).await;
                 }
+                if ctl.sack != 0 && data_seen % ctl.sack == 0 {
+                    marker += 1;
+                    logtx(TxKind::SrtAck(marker));
+                    let _ = sock.send_to(&srt_ack_packet(marker, seq.wrapping_add(1) & 0x7fff_ffff), src).await;
+                }
             }
-            continue;
-        }
-        match u16::from_be_bytes([pkt[0], pkt[1]]) {
-            SRTLA_TYPE_REG1 if n == SRTLA_TYPE_REG1_LEN => {
+            RxKind::Reg1 if n == SRTLA_TYPE_REG1_LEN => {
                 let mut id = [0u8; SRTLA_ID_LEN];
                 id.copy_from_slice(&pkt[2..]);
                 group = Some(id);
+                logtx(TxKind::Reg2);
                 let _ = sock.send_to(&create_reg2_packet(&id), src).await;
             }
-            SRTLA_TYPE_REG2 if n == SRTLA_TYPE_REG2_LEN => match &group {
+            RxKind::Reg2 if n == SRTLA_TYPE_REG2_LEN => match &group {
                 Some(id) if id[..] == pkt[2..] => {
+                    registered.insert(src);
+                    logtx(TxKind::Reg3);
                     let _ = sock.send_to(&SRTLA_TYPE_REG3.to_be_bytes(), src).await;
                 }
                 _ => {
+                    logtx(TxKind::RegNgp);
                     let _ = sock.send_to(&SRTLA_TYPE_REG_NGP.to_be_bytes(), src).await;
                 }
             },
-            SRTLA_TYPE_KEEPALIVE => {
+            RxKind::Keepalive { .. } => {
                 let mut echo = pkt.to_vec();
+                logtx(TxKind::Echo);
                 if ctl.rtt_ms == 0 {
                     if echo.len() >= 10 {
                         echo[2..10].fill(0);
@@ -274,16 +435,31 @@ async fn fake_receiver(sock: Arc<UdpSocket>, ctl: Arc<RecvCtl>) {
     }
 }
 
-async fn srt_source(port: u16, pps: u32) {
+/// SRT encoder / client stand-in: sends the data stream and logs whatever comes back on the same socket.
+async fn srt_source(port: u16, pps: u32, ctl: Arc<RecvCtl>) {
     tokio::time::sleep(Duration::from_secs(3)).await;
     let Ok(sock) = UdpSocket::bind("127.0.0.1:0").await else { return };
+    let sock = Arc::new(sock);
     let dst = SocketAddr::from((Ipv4Addr::LOCALHOST, port));
-    let mut pkt = vec![0u8; 1316];
+    {
+        let (sock, ctl) = (sock.clone(), ctl.clone());
+        tokio::spawn(async move {
+            let mut buf = vec![0u8; 2048];
+            loop {
+                if let Ok((n, _)) = sock.recv_from(&mut buf).await {
+                    let now = ctl.now();
+                    ctl.logs.lock().unwrap().client.push((now, buf[..n].to_vec()));
+                }
+            }
+        });
+    }
     let mut seq: u32 = 1000;
     let mut pace = tokio::time::interval(Duration::from_micros(1_000_000 / u64::from(pps.max(1))));
     loop {
         pace.tick().await;
-        pkt[0..4].copy_from_slice(&seq.to_be_bytes());
+        let pkt = source_packet(seq);
+        let now = ctl.now();
+        ctl.logs.lock().unwrap().src.push((now, seq));
         seq = (seq + 1) & 0x7fff_ffff;
         let _ = sock.send_to(&pkt, dst).await;
     }
@@ -294,7 +470,7 @@ fn file_text(l: &[u8]) -> String {
 }
 
 /// Run one scenario; `Err(reason)` = skipped for an environmental reason.
-pub fn run(sc: &Scenario) -> Result<Vec<Tick>, &'static str> {
+pub fn run(sc: &Scenario) -> Result<Trace, &'static str> {
     // every address the scenario ever lists must be bindable here
     let mut all: Vec<u8> = sc.ips.clone();
     for (_, l) in &sc.reloads {
@@ -322,10 +498,22 @@ pub fn run(sc: &Scenario) -> Result<Vec<Tick>, &'static str> {
         });
         let rx_sock = UdpSocket::bind("127.0.0.1:0").await.map_err(|_| "looptrace-skipped:io")?;
         let rx_port = rx_sock.local_addr().map_err(|_| "looptrace-skipped:io")?.port();
-        let ctl = Arc::new(RecvCtl { tick: AtomicUsize::new(0), admit2: sc.admit2, nak_every: sc.nak_every, nak_from: sc.nak_from, nak_to: sc.nak_to, bh: sc.bh, rtt_ms: sc.rtt_ms });
+        let ctl = Arc::new(RecvCtl {
+            tick: AtomicUsize::new(0),
+            admit2: sc.admit2,
+            nak_every: sc.nak_every,
+            nak_from: sc.nak_from,
+            nak_to: sc.nak_to,
+            bh: sc.bh.clone(),
+            rtt_ms: sc.rtt_ms,
+            sack: sc.sack,
+            forget: sc.forget,
+            t0,
+            logs: Default::default(),
+        });
         tokio::spawn(fake_receiver(Arc::new(rx_sock), ctl.clone()));
         let srt_port = std::net::UdpSocket::bind("[::]:0").ok().and_then(|s| s.local_addr().ok()).map(|a| a.port()).ok_or("looptrace-skipped:io")?;
-        tokio::spawn(srt_source(srt_port, sc.pps));
+        tokio::spawn(srt_source(srt_port, sc.pps, ctl.clone()));
         let hub = SubscriptionHub::new();
         let (push_tx, mut push_rx) = mpsc::channel::<String>(4096);
         hub.subscribe("stats", push_tx).await;
@@ -333,8 +521,6 @@ pub fn run(sc: &Scenario) -> Result<Vec<Tick>, &'static str> {
         let file = path2.to_string_lossy().into_owned();
         let sender = run_sender_with_config(srt_port, "127.0.0.1", rx_port, &file, DynamicConfig::new(), SharedStats::new(), CriticalWindow::new(), hub.clone(), binder);
         tokio::pin!(sender);
-        let sent_flag = Arc::new(AtomicBool::new(false));
-        let _ = sent_flag;
         let scenario = async {
             let mut trace: Vec<Tick> = Vec::new();
             let mut next_reload = 0usize;
@@ -363,13 +549,15 @@ pub fn run(sc: &Scenario) -> Result<Vec<Tick>, &'static str> {
                         cc_loss_ewma: l["cc_loss_ewma"].as_f64().unwrap_or(0.0),
                         cc_loss_degraded: l["cc_loss_degraded"].as_bool().unwrap_or(false),
                         rtt_ms: l["rtt_ms"].as_u64().unwrap_or(0),
+                        window: l["window"].as_i64().unwrap_or(0),
+                        in_flight: l["in_flight"].as_i64().unwrap_or(0),
                     });
                 }
                 run2 = match lt.iter().find(|l| l.ip == "127.0.0.2") {
                     Some(l) if l.share_weak() => run2 + 1,
                     _ => 0,
                 };
-                trace.push(Tick { n, links: lt, reloads_sent: next_reload });
+                trace.push(Tick { n, at: ctl.now(), links: lt, reloads_sent: next_reload });
                 if let Some((trig, list)) = sc.reloads.get(next_reload) {
                     let fire = match trig {
                         Trigger::AtTick(t) => n >= *t,
@@ -400,7 +588,10 @@ pub fn run(sc: &Scenario) -> Result<Vec<Tick>, &'static str> {
                 Err(_) => Err("looptrace-skipped:timeout"),
             },
         };
-        r
+        r.map(|ticks| {
+            let mut l = ctl.logs.lock().unwrap();
+            Trace { ticks, rx: std::mem::take(&mut l.rx), tx: std::mem::take(&mut l.tx), src: std::mem::take(&mut l.src), client: std::mem::take(&mut l.client) }
+        })
     });
     verif_clock::set(None);
     drop(rt);
@@ -596,9 +787,9 @@ pub fn generate(rng: &mut crate::Rng, for_cc: bool) -> Scenario {
     };
     let bh = if rng.chance(1, if for_cc { 2 } else { 4 }) {
         let from = rng.range(12, 22) as usize;
-        Some((*rng.pick(&[1u8, 2]), from, from + rng.range(7, 12) as usize))
+        vec![(*rng.pick(&[1u8, 2]), from, from + rng.range(7, 12) as usize)]
     } else {
-        None
+        Vec::new()
     };
     Scenario {
         ips,
@@ -610,6 +801,304 @@ pub fn generate(rng: &mut crate::Rng, for_cc: bool) -> Scenario {
         nak_from,
         nak_to,
         bh,
+        sack: 0,
+        forget: 0,
         ticks: rng.range(40, 60) as usize,
+    }
+}
+
+// ------------------------------------------------------------------------------------------------
+// End-to-end monitors over the whole trace (component `e2e`): what the RECEIVER and the SRT CLIENT saw,
+// against what the source sent and what the loop's own per-tick snapshots say about each link.
+
+fn link_of(ip: &str) -> u8 {
+    ip.rsplit('.').next().and_then(|x| x.parse().ok()).unwrap_or(0)
+}
+
+/// Was link `o` listed, connected and not timed out in the snapshot of tick index `k` (0-based)?
+fn live_at(trace: &Trace, k: usize, o: u8) -> bool {
+    trace.ticks.get(k).is_some_and(|t| t.links.iter().any(|l| link_of(&l.ip) == o && l.connected && !l.timed_out))
+}
+
+/// Index of the last tick published at or before `at` / of the first tick published after `at`.
+fn bracket(trace: &Trace, at: u64) -> (Option<usize>, Option<usize>) {
+    let after = trace.ticks.iter().position(|t| t.at > at);
+    let before = match after {
+        Some(0) => None,
+        Some(i) => Some(i - 1),
+        None => trace.ticks.len().checked_sub(1),
+    };
+    (before, after)
+}
+
+pub fn monitors_e2e(trace: &Trace, sc: &Scenario, mon: &mut crate::Mon) {
+    use std::collections::{BTreeMap, BTreeSet};
+    let what = sc.render();
+    let links: BTreeSet<u8> = trace.rx.iter().map(|e| e.link).collect();
+
+    // ---- C01: what an uplink puts on the wire is a source datagram, byte for byte, and per uplink in source order
+    let mut last_seq: BTreeMap<(u8, u16), u32> = BTreeMap::new();
+    let mut seen_on: BTreeMap<u32, Vec<u8>> = BTreeMap::new();
+    let sent: BTreeMap<u32, u64> = trace.src.iter().map(|(at, s)| (*s, *at)).collect();
+    for e in &trace.rx {
+        if let RxKind::Data { seq, intact } = &e.kind {
+            mon.count("e2e-data-arrival");
+            if !*intact || !sent.contains_key(seq) {
+                mon.fail("C01", "e2e-corrupted", format!("real event loop [{what}]: uplink 127.0.0.{} put a data packet on the wire (sequence field {seq}) that is not byte-identical to a datagram the SRT source sent", e.link));
+                continue;
+            }
+            if let Some(p) = last_seq.get(&(e.link, e.port)) {
+                if *seq == *p {
+                    mon.fail("C01", "e2e-sent-twice-on-link", format!("real event loop [{what}]: uplink 127.0.0.{} sent datagram {seq} twice", e.link));
+                } else if *seq < *p {
+                    mon.fail("C01", "e2e-order", format!("real event loop [{what}]: uplink 127.0.0.{} sent datagram {seq} after {p}", e.link));
+                }
+            }
+            last_seq.insert((e.link, e.port), *seq);
+            seen_on.entry(*seq).or_default().push(e.link);
+        }
+    }
+    let dup = seen_on.values().filter(|v| v.len() > 1).count();
+    if dup > 0 {
+        mon.count("e2e-scenario-with-duplicates");
+    }
+    // duplicates are probes: at most one extra copy per datagram, on another uplink
+    for (seq, v) in &seen_on {
+        if v.len() > 2 {
+            mon.fail("C01", "e2e-many-copies", format!("real event loop [{what}]: datagram {seq} went on the wire {} times (uplinks {v:?})", v.len()));
+        }
+    }
+
+    // ---- C03 / C01: no blackout. A datagram sent by the source while - by the loop's own snapshots before and
+    // after it - some uplink is connected and live must go on SOME uplink's wire; the only datagrams that may
+    // vanish are those queued on an uplink at the moment it is torn down (fewer than 32 per tear-down)
+    let teardowns: usize = {
+        let mut n = 0;
+        for o in &links {
+            for k in 1..trace.ticks.len() {
+                if live_at(trace, k - 1, *o) && !live_at(trace, k, *o) {
+                    n += 1;
+                }
+            }
+        }
+        n
+    };
+    let first_arrival = trace.rx.iter().find(|e| matches!(e.kind, RxKind::Data { .. })).map(|e| e.at);
+    let last_tick_at = trace.ticks.last().map(|t| t.at).unwrap_or(0);
+    let mut lost: Vec<u32> = Vec::new();
+    let mut judged = 0usize;
+    if let Some(fa) = first_arrival {
+        for (at, seq) in &trace.src {
+            if *at <= fa + 50 || *at + 1500 > last_tick_at {
+                continue;
+            }
+            let (b, a) = bracket(trace, *at);
+            let (Some(b), Some(a)) = (b, a) else { continue };
+            let usable = links.iter().any(|o| live_at(trace, b, *o) && live_at(trace, a, *o));
+            if !usable {
+                continue;
+            }
+            judged += 1;
+            if !seen_on.contains_key(seq) {
+                lost.push(*seq);
+            }
+        }
+    }
+    if judged > 0 {
+        mon.count("e2e-scenario-with-stream");
+        mon.nontrivial();
+    }
+    if !lost.is_empty() {
+        mon.count("e2e-scenario-with-lost-datagrams");
+    }
+    if lost.len() > 32 * teardowns {
+        let what2 = format!("real event loop [{what}]: {} of {judged} datagrams sent by the source while an uplink was connected and live (by the loop's own snapshots before and after) never went on any uplink's wire; {teardowns} tear-down(s) can account for at most {} (first missing: {:?})", lost.len(), 32 * teardowns, &lost[..lost.len().min(12)]);
+        mon.fail("C03", "e2e-blackout", what2.clone());
+        mon.fail("C01", "e2e-datagram-vanished", what2);
+    }
+
+    // ---- C14: keepalive cadence and frame, seen from the receiver
+    for o in &links {
+        let kas: Vec<&RxEv> = trace.rx.iter().filter(|e| e.link == *o && matches!(e.kind, RxKind::Keepalive { .. })).collect();
+        for e in &kas {
+            if let RxKind::Keepalive { ts, len, ext } = &e.kind {
+                mon.count("e2e-keepalive");
+                if *len != 38 || !*ext {
+                    mon.fail("C14", "e2e-keepalive-frame", format!("real event loop [{what}]: uplink 127.0.0.{o} sent a keepalive of {len} bytes (extended telemetry decodes: {ext}); a keepalive is a 38-byte extended frame"));
+                }
+                match ts {
+                    Some(t) if e.at >= *t && e.at - *t <= 20 => {}
+                    _ => mon.fail("C14", "e2e-keepalive-timestamp", format!("real event loop [{what}]: uplink 127.0.0.{o}: keepalive arriving at {} carries send timestamp {ts:?}", e.at)),
+                }
+            }
+        }
+        // every pair of consecutive snapshots that both show the uplink connected and live has a keepalive
+        // between the earlier one's predecessor and the later one (never more than two periods without one)
+        for k in 2..trace.ticks.len() {
+            if live_at(trace, k - 2, *o) && live_at(trace, k - 1, *o) && live_at(trace, k, *o) {
+                let (from, to) = (trace.ticks[k - 2].at, trace.ticks[k].at);
+                mon.count("e2e-keepalive-window");
+                if !kas.iter().any(|e| e.at > from.saturating_sub(5) && e.at <= to + 5) {
+                    mon.fail("C14", "e2e-keepalive-gap", format!("real event loop [{what}]: uplink 127.0.0.{o} is connected and live in the snapshots of ticks {}..{} but no keepalive from it reached the receiver between {from} and {to} (two housekeeping periods)", k - 1, k + 1));
+                }
+            }
+        }
+    }
+
+    // ---- C09: return traffic reaches the SRT client unchanged; SRTLA-internal traffic never does
+    let mut acks: BTreeMap<u32, &TxEv> = BTreeMap::new();
+    for t in &trace.tx {
+        if let TxKind::SrtAck(m) = t.kind {
+            acks.insert(m, t);
+        }
+    }
+    let naks: BTreeSet<u32> = trace.tx.iter().filter_map(|t| if let TxKind::Nak(s) = t.kind { Some(s) } else { None }).collect();
+    let mut got: BTreeMap<u32, usize> = BTreeMap::new();
+    let mut got_nak: BTreeSet<u32> = BTreeSet::new();
+    for (at, d) in &trace.client {
+        let m = if d.len() == 44 { u32::from_be_bytes([d[4], d[5], d[6], d[7]]) } else { 0 };
+        let ack = if d.len() == 44 { u32::from_be_bytes([d[16], d[17], d[18], d[19]]) } else { 0 };
+        let nk = if d.len() == 20 { u32::from_be_bytes([d[16], d[17], d[18], d[19]]) } else { 0 };
+        if d.len() == 44 && acks.contains_key(&m) && *d == srt_ack_packet(m, ack) {
+            *got.entry(m).or_default() += 1;
+            mon.count("e2e-return-delivered");
+        } else if d.len() == 20 && naks.contains(&nk) && *d == nak_packet(nk) {
+            got_nak.insert(nk);
+            mon.count("e2e-return-delivered-nak");
+        } else {
+            let ty = if d.len() >= 2 { u16::from_be_bytes([d[0], d[1]]) } else { 0 };
+            mon.fail("C09", "e2e-return-foreign", format!("real event loop [{what}]: the SRT client received at {at} a {}-byte datagram of type {ty:#06x} that is not one of the receiver's SRT ACKs / NAKs, byte for byte", d.len()));
+        }
+    }
+    for t in &trace.tx {
+        if let TxKind::Nak(sq) = t.kind {
+            let (b, a) = bracket(trace, t.at);
+            let (Some(b), Some(a)) = (b, a) else { continue };
+            if live_at(trace, b, t.link) && live_at(trace, a, t.link) && t.at + 1500 < last_tick_at && !got_nak.contains(&sq) {
+                mon.fail("C09", "e2e-return-not-relayed", format!("real event loop [{what}]: the receiver's NAK for {sq}, sent at {} on uplink 127.0.0.{} (connected and live in the snapshots before and after), never reached the SRT client", t.at, t.link));
+            }
+        }
+    }
+    // (C09 says "at least once": the ACK fast path plus the ordinary relay deliver an SRT ACK twice - counted, not judged)
+    if got.values().any(|n| *n > 1) {
+        mon.count("e2e-scenario-with-return-delivered-twice");
+    }
+    for (m, t) in &acks {
+        let (b, a) = bracket(trace, t.at);
+        let (Some(b), Some(a)) = (b, a) else { continue };
+        if live_at(trace, b, t.link) && live_at(trace, a, t.link) && t.at + 1500 < last_tick_at {
+            mon.count("e2e-return-judged");
+            if !got.contains_key(m) {
+                mon.fail("C09", "e2e-return-not-relayed", format!("real event loop [{what}]: the receiver's SRT ACK #{m}, sent at {} on uplink 127.0.0.{} (connected and live in the snapshots before and after), never reached the SRT client", t.at, t.link));
+            }
+        }
+    }
+
+    // ---- C08: an uplink the receiver stops answering is torn down no earlier than the configured timeout after
+    // the last thing it was sent, and is connected again within 30 s of the receiver answering it again
+    let timeout_ms = 5000u64; // DynamicConfig::new(): the default; the scenarios do not change it
+    for o in &links {
+        for k in 1..trace.ticks.len() {
+            let was = trace.ticks[k - 1].links.iter().find(|l| link_of(&l.ip) == *o);
+            let is = trace.ticks[k].links.iter().find(|l| link_of(&l.ip) == *o);
+            let (Some(was), Some(is)) = (was, is) else { continue };
+            if was.connected && !is.connected {
+                mon.count("e2e-teardown");
+                // last liveness-refreshing datagram the receiver sent on this uplink before the tear-down: sends to
+                // the port the uplink used BEFORE it (a re-created socket has a new port; what the receiver
+                // answers to that one is after the tear-down), strictly before the snapshot
+                let old_port = trace.rx.iter().filter(|e| e.link == *o && e.at + 500 < trace.ticks[k].at).map(|e| e.port).last();
+                let heard = trace.tx.iter().filter(|t| t.link == *o && Some(t.port) == old_port && t.at < trace.ticks[k].at && !matches!(t.kind, TxKind::Reg2 | TxKind::RegNgp)).map(|t| t.at).max();
+                if let Some(h) = heard {
+                    let silent = trace.ticks[k].at.saturating_sub(h);
+                    if silent < timeout_ms {
+                        mon.fail("C08", "e2e-torn-down-early", format!("real event loop [{what}]: uplink 127.0.0.{o} went from connected to not connected at tick {} (t={}) although the receiver last sent it something at {h}, {silent} ms earlier - less than the configured timeout of {timeout_ms} ms, and no send failed", k + 1, trace.ticks[k].at));
+                    } else {
+                        mon.count("e2e-teardown-after-timeout");
+                    }
+                }
+            }
+        }
+        // recovery: from the first REG3 the receiver sends after a black-hole / restart the uplink must show up
+        // connected within 30 s; and measured from the end of the black-hole, a REG3 must exist within 30 s
+        let mut ends: Vec<usize> = sc.bh.iter().filter(|(l, _, _)| l == o).map(|(_, _, to)| *to).collect();
+        if sc.forget != 0 {
+            ends.push(sc.forget);
+        }
+        for to in ends {
+            let Some(t_end) = trace.ticks.get(to.saturating_sub(1)).map(|t| t.at) else { continue };
+            if t_end + 32_000 > last_tick_at {
+                mon.count("e2e-recovery-unjudged:trace-too-short");
+                continue;
+            }
+            // still listed until the end?
+            if !trace.ticks.iter().filter(|t| t.at >= t_end).all(|t| t.links.iter().any(|l| link_of(&l.ip) == *o)) {
+                continue;
+            }
+            mon.count("e2e-recovery-judged");
+            let back = trace.ticks.iter().find(|t| t.at > t_end && t.links.iter().any(|l| link_of(&l.ip) == *o && l.connected && !l.timed_out));
+            match back {
+                Some(t) if t.at <= t_end + 31_000 => mon.count("e2e-recovered-within-30s"),
+                _ => mon.fail("C08", "e2e-not-recovered", format!("real event loop [{what}]: the receiver answers uplink 127.0.0.{o} again from tick {to} (t={t_end}) on, yet no snapshot within 30 s shows it connected and live")),
+            }
+        }
+        // retries: registration packets of one uplink while it is down are paced (count only: the bound depends on the phase)
+        let regs: Vec<u64> = trace.rx.iter().filter(|e| e.link == *o && matches!(e.kind, RxKind::Reg2)).map(|e| e.at).collect();
+        for w in regs.windows(2) {
+            if w[1] - w[0] < 1000 {
+                mon.count("e2e-reg2-gap<1s");
+            } else if w[1] - w[0] < 5000 {
+                mon.count("e2e-reg2-gap<5s");
+            } else {
+                mon.count("e2e-reg2-gap>=5s");
+            }
+        }
+    }
+}
+
+/// Random scenario for the `e2e` component.
+pub fn generate_e2e(rng: &mut crate::Rng) -> Scenario {
+    let n = rng.range(2, 3) as u8;
+    let ips: Vec<u8> = (1..=n).collect();
+    let ticks = rng.range(45, 80) as usize;
+    let mut bh = Vec::new();
+    if rng.chance(3, 4) {
+        let from = rng.range(8, 16) as usize;
+        bh.push((rng.range(1, n as u64) as u8, from, from + rng.range(2, 14) as usize));
+        if rng.chance(1, 3) {
+            let from2 = rng.range(24, 34) as usize;
+            bh.push((rng.range(1, n as u64) as u8, from2, from2 + rng.range(2, 10) as usize));
+        }
+    }
+    let forget = if bh.is_empty() && rng.chance(1, 2) { rng.range(10, 25) as usize } else { 0 };
+    let mut reloads = Vec::new();
+    if rng.chance(1, 3) {
+        let mut other = ips.clone();
+        if rng.chance(1, 2) {
+            other.push(n + 1);
+        } else if other.len() > 2 {
+            other.pop();
+        }
+        reloads.push((Trigger::AtTick(rng.range(8, 35) as usize), other));
+    }
+    let (nak_every, nak_from, nak_to) = if rng.chance(1, 3) {
+        let from = rng.range(8, 30) as usize;
+        (*rng.pick(&[3u32, 10, 50]), from, from + rng.range(3, 10) as usize)
+    } else {
+        (0, 0, 0)
+    };
+    Scenario {
+        ips,
+        reloads,
+        admit2: if rng.chance(1, 4) { rng.range(5, 10) as usize } else { 0 },
+        pps: *rng.pick(&[50u32, 100, 200, 400, 25]),
+        rtt_ms: *rng.pick(&[0u64, 10, 30, 80]),
+        nak_every,
+        nak_from,
+        nak_to,
+        bh,
+        sack: *rng.pick(&[0u32, 7, 20, 50]),
+        forget,
+        ticks,
     }
 }
